@@ -595,6 +595,25 @@ func ruleDiscardChain(r *core.Reporter) {
 		chain = a
 	}
 	if chain == nil {
+		// a method value (b.runChain) instead of a literal: the bound-method wrapper calls the method
+		for _, ret := range ir.Returns(buildFn) {
+			if mc, ok := ir.Strip(ir.RetVal(ret, 0)).(*ssa.MakeClosure); ok {
+				if w, isF := mc.Fn.(*ssa.Function); isF {
+					chain = w
+					if w.Synthetic != "" {
+						allInstrs(w, func(in ssa.Instruction) {
+							if c, isC := in.(*ssa.Call); isC {
+								if f := ir.CalleeOf(c.Common()); f != nil && core.InModule(f) {
+									chain = f
+								}
+							}
+						})
+					}
+				}
+			}
+		}
+	}
+	if chain == nil {
 		r.Undecided("Builder.Build/chain", fnPos(p, buildFn), "built closure not found")
 		return
 	}
@@ -658,7 +677,44 @@ func ruleDiscardChain(r *core.Reporter) {
 			contains = c
 		}
 	})
-	if contains == nil || len(contains.Call.Args) != 2 || !isConfigField(contains.Call.Args[0], "WARCDiscardStatus") || ir.Path(contains.Call.Args[1]) != "$"+sh.Params[0].Name()+".StatusCode" {
+	if contains == nil {
+		// loop form: for _, s := range config.WARCDiscardStatus { if resp.StatusCode == s { return true, … } }
+		okLoop := false
+		status := "$" + sh.Params[0].Name() + ".StatusCode"
+		for _, ii := range ir.Ifs(sh) {
+			a := ii.Atom
+			if a.V != nil || a.Op != token.EQL {
+				continue
+			}
+			x, y := a.X, a.Y
+			if ir.Path(y) == status {
+				x, y = y, x
+			}
+			if ir.Path(x) != status {
+				continue
+			}
+			sl, _, isEl := elemLoad(ir.Strip(y))
+			if !isEl || !isConfigField(sl, "WARCDiscardStatus") || !loopCoversAll(sh, ii.If) {
+				continue
+			}
+			okLoop = true
+			start := ir.Pt{B: ii.If.Block().Succs[ii.EdgeWhen(true)], I: 0}
+			for in := range ir.Reach([]ir.Pt{start}, ir.Opts{}).Reached {
+				if ret, isRet := in.(*ssa.Return); isRet {
+					if c, isC := ir.RetVal(ret, 0).(*ssa.Const); !isC || c.Value == nil || !constant.BoolVal(c.Value) {
+						okLoop = false
+					}
+				}
+			}
+		}
+		if okLoop {
+			r.Held("WARCDiscardStatusHook/test", 1, "status ∈ --warc-discard-status ⇒ discard (loop form)")
+		} else {
+			r.Violated("WARCDiscardStatusHook/test", fnPos(p, sh), "the hook no longer tests resp.StatusCode against config.WARCDiscardStatus")
+		}
+		return
+	}
+	if len(contains.Call.Args) != 2 || !isConfigField(contains.Call.Args[0], "WARCDiscardStatus") || ir.Path(contains.Call.Args[1]) != "$"+sh.Params[0].Name()+".StatusCode" {
 		r.Violated("WARCDiscardStatusHook/test", fnPos(p, sh), "the hook no longer tests resp.StatusCode against config.WARCDiscardStatus")
 		return
 	}
